@@ -153,12 +153,22 @@ class HandlerPrims:
             outs.insert(0, (OK(UNIT), path))
             return outs
         if kind == "mem_read_bytes":
+            outs = []
+            if self.mem_fail_paths:
+                p2 = path.copy()
+                p2.events.append(("mem_fault", "read", "bytes", args[1], site))
+                outs.append((ERR(("memerr", args[1])), p2))
             ev.append(("mem_read", "bytes", args[1], args[2], site))
-            return [(OK(W(("membytes", args[1], args[2], mv), 64)), path)]
+            return [(OK(W(("membytes", args[1], args[2], mv), 64)), path)] + outs
         if kind == "mem_write_bytes":
+            outs = []
+            if self.mem_fail_paths:
+                p2 = path.copy()
+                p2.events.append(("mem_fault", "write", "bytes", args[1], site))
+                outs.append((ERR(("memerr", args[1])), p2))
             ev.append(("mem_write", "bytes", args[1], I._deref_all(path, args[2]), site))
             path.tags["memver"] = mv + 1
-            return [(OK(UNIT), path)]
+            return [(OK(UNIT), path)] + outs
         if kind == "mem_addr":
             if self.inline_mem_addr:
                 return None
